@@ -616,7 +616,7 @@ func (g *Gen) loopHeader(li *loopInfo, pre *State, phiFwd map[*ssa.Phi]Term) *St
 func (g *Gen) invariantsFor(ord int) []*spec.Clause {
 	var out []*spec.Clause
 	for _, inv := range g.con.Invs {
-		if inv.Loop == ord {
+		if inv.Loop == ord || inv.Loop == 0 {
 			out = append(out, inv)
 		}
 	}
